@@ -240,6 +240,49 @@ func storesToGlobal(f *ssa.Function, g *ssa.Global) bool {
 // goroutine gets its own object). Otherwise the goroutine may observe a later
 // value - e.g. every close notification naming the last proxy of a loop.
 func (x *Run) checkGoShare(fn *ssa.Function) {
+	// callbacks stored for later (appended to a list, stored in a field): the
+	// variables they capture must not be written after the callback was created
+	nc := 0
+	for _, b := range fn.Blocks {
+		for idx, ins := range b.Instrs {
+			mc, ok := ins.(*ssa.MakeClosure)
+			if !ok {
+				continue
+			}
+			stored := false
+			for _, r := range *mc.Referrers() {
+				switch c := r.(type) {
+				case *ssa.Store:
+					if c.Val == ssa.Value(mc) {
+						stored = true
+					}
+				case *ssa.MapUpdate:
+					stored = true
+				case *ssa.MakeInterface:
+					stored = true
+				}
+			}
+			if !stored {
+				continue
+			}
+			nc++
+			okAll := true
+			what := ""
+			for _, bd := range mc.Bindings {
+				if cell, ok := bd.(*ssa.Alloc); ok {
+					if w := x.writtenAfter(fn, b, idx, cell); w != "" {
+						okAll = false
+						what = cell.Comment + " written at " + w
+					}
+				}
+			}
+			note := "variables captured by the stored callback are not written afterwards"
+			if !okAll {
+				note = "stored callback captures a variable that changes later: " + what
+			}
+			x.obligeStatic(newState(), fmt.Sprintf("capture.%s.callback#%d", x.fnShort(fn), nc), "goshare", okAll, mc.Pos(), note)
+		}
+	}
 	n := 0
 	for _, b := range fn.Blocks {
 		for idx, ins := range b.Instrs {
@@ -276,22 +319,41 @@ func (x *Run) checkGoShare(fn *ssa.Function) {
 // writtenAfter: is cell (or the object a load of cell points to) stored to at a
 // point reachable from (b, idx) without re-executing cell's allocation?
 func (x *Run) writtenAfter(fn *ssa.Function, b *ssa.BasicBlock, idx int, cell *ssa.Alloc) string {
+	// writes to the object the variable points to count only when that object is
+	// local to this function (allocated here), not for pointers to long-lived
+	// shared objects such as the receiver
+	localObj := true
+	nst := 0
+	for _, r := range *cell.Referrers() {
+		if st, ok := r.(*ssa.Store); ok && st.Addr == ssa.Value(cell) {
+			nst++
+			if _, isAlloc := st.Val.(*ssa.Alloc); !isAlloc {
+				localObj = false
+			}
+		}
+	}
+	if nst == 0 {
+		localObj = false
+	}
 	isWrite := func(ins ssa.Instruction) bool {
 		st, ok := ins.(*ssa.Store)
 		if !ok {
 			return false
 		}
 		a := st.Addr
+		depth := 0
 		for {
 			switch v := a.(type) {
 			case *ssa.FieldAddr:
 				a = v.X
+				depth++
 				continue
 			case *ssa.IndexAddr:
 				a = v.X
+				depth++
 				continue
 			case *ssa.UnOp:
-				if v.X == ssa.Value(cell) {
+				if v.X == ssa.Value(cell) && localObj {
 					return true
 				}
 			case *ssa.Alloc:
